@@ -230,7 +230,8 @@ fn build_values(definition: &Yaml, use_speech_defs: bool, path: &Path) -> Result
 
     let result;
     if def_name.starts_with("Numbers") || def_name.ends_with("_vec") {
-         result = Contains::Vec( Rc::new( RefCell::new( get_vec_values(value.as_vec().unwrap())? ) ) );
+         let vec = value.as_vec().ok_or_else(|| format!("definition list value '{}' is not an array", yaml_to_type(value)))?;
+         result = Contains::Vec( Rc::new( RefCell::new( get_vec_values(vec)? ) ) );
     } else {
         // match value.as_vec() {
         //     Some(vec) => {
